@@ -3,7 +3,7 @@ CONSTANTS
   Sess <- S2
   Menu <- MenuQ
   Creates <- CreatesQ
-  Fees <- F01
+  Fees <- F12
   Pre <- PreB
   MaxTime = 3
   MaxLen = 3
